@@ -489,3 +489,59 @@ where
     };
     newton_raphson_onesided(x0, f0, f1)
 }
+
+// ---------------------------------------------------------------------------
+// verification hooks (feature `verif-hooks`): add-only call-through wrappers
+// for the crate-private nonsymmetric-cone methods and read access to the
+// stored barrier derivatives.  No behaviour is added.
+// ---------------------------------------------------------------------------
+#[cfg(feature = "verif-hooks")]
+pub mod verif_hooks_powcone {
+    use super::*;
+
+    pub fn is_primal_feasible<T: FloatT>(k: &PowerCone<T>, s: &[T]) -> bool {
+        NonsymmetricCone::is_primal_feasible(k, s)
+    }
+    pub fn is_dual_feasible<T: FloatT>(k: &PowerCone<T>, z: &[T]) -> bool {
+        NonsymmetricCone::is_dual_feasible(k, z)
+    }
+    pub fn barrier_primal<T: FloatT>(k: &mut PowerCone<T>, s: &[T]) -> T {
+        NonsymmetricCone::barrier_primal(k, s)
+    }
+    pub fn barrier_dual<T: FloatT>(k: &mut PowerCone<T>, z: &[T]) -> T {
+        NonsymmetricCone::barrier_dual(k, z)
+    }
+    pub fn higher_correction<T: FloatT>(k: &mut PowerCone<T>, η: &mut [T], ds: &[T], v: &[T]) {
+        NonsymmetricCone::higher_correction(k, η, ds, v)
+    }
+    pub fn update_dual_grad_H<T: FloatT>(k: &mut PowerCone<T>, z: &[T]) {
+        NonsymmetricCone::update_dual_grad_H(k, z)
+    }
+    pub fn gradient_primal<T: FloatT>(k: &PowerCone<T>, s: &[T]) -> [T; 3] {
+        Nonsymmetric3DCone::gradient_primal(k, s)
+    }
+    pub fn use_dual_scaling<T: FloatT>(k: &mut PowerCone<T>, μ: T) {
+        Nonsymmetric3DConeUtils::use_dual_scaling(k, μ)
+    }
+    pub fn use_primal_dual_scaling<T: FloatT>(k: &mut PowerCone<T>, s: &[T], z: &[T]) {
+        Nonsymmetric3DConeUtils::use_primal_dual_scaling(k, s, z)
+    }
+    pub fn newton_raphson_powcone<T: FloatT>(s3: T, phi: T, α: T) -> T {
+        _newton_raphson_powcone(s3, phi, α)
+    }
+    pub fn alpha<T: FloatT>(k: &PowerCone<T>) -> T {
+        k.α
+    }
+    pub fn grad<T: FloatT>(k: &PowerCone<T>) -> [T; 3] {
+        k.grad
+    }
+    pub fn z<T: FloatT>(k: &PowerCone<T>) -> [T; 3] {
+        k.z
+    }
+    pub fn H_dual<T: FloatT>(k: &PowerCone<T>) -> [T; 6] {
+        k.H_dual.data
+    }
+    pub fn Hs<T: FloatT>(k: &PowerCone<T>) -> [T; 6] {
+        k.Hs.data
+    }
+}
